@@ -94,6 +94,10 @@ SIMPLE = [
     S("from-import-as", "from pvm import val as {n1}", cur="n1"),
     S("import-dotted", ["import pvpkg.sub", "{n1} = pvpkg.sub.val + E({e1}, {p})"], cur="n1"),
     S("def", ["def {n1}(u):", "    return u + E({e1}, {p})", "{n2} = {n1}(1)"], cur="n2"),
+    S("def-rebind", ["def {p}(u):", "    return u + E({e1}, 1)"]),
+    S("async-def", ["async def {n1}(u):", "    w = u", "    return w", "{n2} = E({e1}, {p})"], cur="n2"),
+    S("self-read", "{n1} = E({e1}, f is not None)", cur="n1"),
+    S("import-as-cur", "import pvm as {p}"),
     S("def-nonlocal", ["def {n1}():", "    nonlocal {p}", "    {p} += E({e1}, 1)", "{n1}()"]),
     S("lambda", "{n1} = (lambda u: u + {p})(E({e1}, 1))", cur="n1"),
     S("listcomp", "{n1} = sum([u + {p} for u in R(E({e1}, 2))])", cur="n1"),
@@ -146,6 +150,7 @@ COMPOUND = [
     S("while-walrus", "while ({n1} := T({e1}, {p})):", bodies=1, loop=True),
     S("try-except", "try:", bodies=2, body_heads=["except ERR as {n1}:"]),
     S("try-except-noname", "try:", bodies=2, body_heads=["except ERR:"], tier="thorough"),
+    S("try-except-cur", "try:", bodies=2, body_heads=["except ERR as {p}:"], tier="thorough"),
     S("try-finally", "try:", bodies=2, body_heads=["finally:"]),
     S("try-except-else", "try:", bodies=3, body_heads=["except ERR as {n1}:", "else:"], tier="thorough"),
     S("with", "with CM(E({e1}, {p})) as {n1}:", bodies=1),
@@ -227,6 +232,8 @@ SIGNATURES = {
     "rich": ("x, /, y=2, *rest, k=3, **kw", False),
     "kwonly": ("x, *, k=3", False),
     "doc": ("x", True),
+    # defined in a factory; a default value refers to a local of the factory
+    "closure-default": ("x, y=kk", False),
 }
 
 
@@ -243,6 +250,8 @@ def render(lines, flags, tail=True, sig=None):
         if doc:
             body = ['    """A docstring, which ptera keeps outside the instrumented block."""'] + body
     fn = [f"def f({plist}):"] + body
+    if sig == "closure-default":
+        return "def make(c):\n    kk = 3\n" + "\n".join("    " + ln for ln in fn) + "\n    return f\nf = make(10)\n"
     if "closure" in flags:
         src = "def make(c):\n" + "\n".join("    " + ln for ln in fn) + "\n    return f\nf = make(10)\n"
     else:
@@ -278,6 +287,8 @@ def programs(size, tier, only=None, maxdepth=2, must=None, tails=(True,), sigs=(
             for sig in sigs:
                 if sig and (ctx.flags & {"o", "d"}):
                     continue
-                fl = ctx.flags | ({"sig:" + sig} if sig else set())
+                if sig == "closure-default" and "closure" in ctx.flags:
+                    continue
+                fl = ctx.flags | ({"sig:" + sig} if sig else set()) | ({"closure"} if sig == "closure-default" else set())
                 fm = forms + (() if tail else ("fall-off-end",)) + (("sig-" + sig,) if sig else ())
                 yield Prog(render(lines, ctx.flags, tail, sig), fm, frozenset(fl), used)
